@@ -10,7 +10,7 @@ or a margin's reference size in layout.py breaks these proofs at the next run.
 
 Only property theorems live here; lemmas are in `Lemmas/LayoutSpec.lean`, `Lemmas/LayoutScale.lean`.
 -/
-import PdfVerif.Lemmas.LayoutSpec
+import PdfVerif.Lemmas.LayoutScale2
 
 namespace PdfVerif.Props.C09
 open PdfVerif PdfVerif.Gen.Layout PdfVerif.Layout
@@ -147,27 +147,44 @@ theorem C09_scale_neighbours {s : Rat} (hs : 0 < s) (ratio : Rat) (hr : 0 ≤ ra
     ↔ j ∈ neighbors ratio (mkPlane pageBB (lines.zipIdx.map fun (x : Line × Nat) => x.1.pobj x.2)) lines l :=
   neighbors_scale hs ratio hr pageBB hp lines hne l hl j
 
-/-- The full statement that is NOT true of the code (see `C09_scale_cex`). -/
-def C09_scale_statement : Prop :=
-  ∀ (s : Rat), 0 < s → ∀ (p : LAParams) (pageBB : BB) (lines : List Line),
-    (groupTextlines p (scaleBB s pageBB) (lines.map (scaleLine s))).map (fun b => b.lines.map (·.glyphs.map (·.id)))
-      = (groupTextlines p pageBB lines).map (fun b => b.lines.map (·.glyphs.map (·.id)))
+/-- **Order of the neighbours.**  After the repair of `Plane.find` (objects reported in insertion order,
+C20 `plane_find_order`) `find_neighbors` lists the neighbouring lines in the order of the lines - not in
+the scan order of the 50-unit grid, which depends on the scale. -/
+theorem C09_find_neighbors_order (ratio : Rat) (hr : 0 ≤ ratio) (pageBB : BB) (hp : WfPage pageBB) (lines : List Line)
+    (hne : ∀ l ∈ lines, l.isEmpty = false) (l : Line) (hl : l ∈ lines) :
+    (neighbors ratio (mkPlane pageBB (lines.zipIdx.map fun (x : Line × Nat) => x.1.pobj x.2)) lines l).Pairwise (· < ·) :=
+  neighbors_sorted ratio hr pageBB hp lines hne l hl
 
-def cexLine (id : Nat) (y0 : Rat) : Line := newLine false ⟨id, ⟨10, y0, 110, 165⟩, [65]⟩
-/-- Three (nearly) coincident lines with the same top edge - text printed three times. -/
-def cexLines : List Line := [cexLine 1 151, cexLine 3 149, cexLine 5 151]
-def cexParams : LAParams := ⟨1/2, 2, 1/2, 1/8, none, false⟩
-def cexPage : BB := ⟨0, 0, 200, 200⟩
+/-- **Scale invariance of the box stage.**  For every `s > 0`, all parameters, non-empty lines and a
+well-formed page box: `group_textlines` of the scaled lines is the scaled result - the same boxes with
+the same member lines in the same order.  (False for the pinned code - the order of equal-key lines
+followed the grid; the counter-example of the previous round is `corpus/C09/scale-equal-key-line-order.json`,
+now a regression test.) -/
+theorem C09_scale_textlines {s : Rat} (hs : 0 < s) (p : LAParams) (pageBB : BB) (hp : WfPage pageBB)
+    (lines : List Line) (hne : ∀ l ∈ lines, l.isEmpty = false) :
+    groupTextlines p (scaleBB s pageBB) (lines.map (scaleLine s)) = (groupTextlines p pageBB lines).map (scaleBox s) :=
+  groupTextlines_scale hs p pageBB hp lines hne
 
-/-- **Counter-example (open finding `C09-scale-equal-key-line-order`).**  The order in which
-`group_textlines` adds lines with EQUAL sort key to a box follows the cell scan order of `Plane.find`,
-and the 50-unit grid does not scale with the page: at scale 1 the three lines come out as 5, 3, 1, at
-scale 1/2 as 5, 1, 3 (the implementation does the same: corpus/C09/scale-equal-key-line-order.json). -/
-theorem C09_scale_cex : ¬ C09_scale_statement := by
-  intro h
-  have := h (1/2) (by decide +kernel) cexParams cexPage cexLines
-  revert this
-  decide +kernel
+/-- **Scale invariance of the whole analysis, `boxes_flow = None`.**  For every item list, every other
+parameter, every `s > 0` (not only powers of two) and a well-formed page box, the analysis of the scaled
+page is the scaled analysis: same lines, spaces, boxes, line order, numbering and child order. -/
+theorem C09_scale_analyze_none {le : Cmp} {s : Rat} (hs : 0 < s) (p : LAParams) (hbf : p.boxes_flow = none)
+    (pageBB : BB) (hp : WfPage pageBB) (items : List Item) :
+    analyze le p (scaleBB s pageBB) (items.map (scaleItem s)) = scaleResult s (analyze le p pageBB items) :=
+  analyze_none_scale hs p hbf pageBB hp items
+
+/-- With a numeric `boxes_flow` the stages up to the text boxes are scale invariant (`C09_scale_lines`,
+`C09_scale_textlines`) and so is everything the heap stage computes with (`C09_scale_predicates`: `dist`
+scales by `s²`, the group keys by `s`, `isany` asks `Plane.find`, which is grid independent as a list);
+the simulation argument through the `group_textboxes` loop is not carried out in Lean - that stage is
+covered by the scale runs of the harness only.  `_partial`: the part of the hierarchy stage that is proved. -/
+theorem C09_scale_hierarchy_partial {s : Rat} (hs : 0 < s) (bf : Rat) (a b : BB) :
+    dist (scaleBB s a) (scaleBB s b) = s * s * dist a b
+    ∧ (groupKey false bf (scaleBB s a) < groupKey false bf (scaleBB s b) ↔ groupKey false bf a < groupKey false bf b)
+    ∧ (groupKey true bf (scaleBB s a) < groupKey true bf (scaleBB s b) ↔ groupKey true bf a < groupKey true bf b) := by
+  refine ⟨dist_scale hs a b, ?_, ?_⟩
+  · simp only [groupKey, Bool.false_eq_true, if_false, key_lrtb_scale hs, lt_scale hs]
+  · simp only [groupKey, if_true, key_tbrl_scale hs, lt_scale hs]
 
 /-! ### non-vacuity -/
 
